@@ -95,8 +95,10 @@ Register ==
   /\ Log([op |-> "register", m |-> "-", h |-> pend])
   /\ UNCHANGED <<cls, st, cap, verd, relayed, atC, why, nswaps, disc>>
 
-\* the design without the window (one permanent validator dispatching to a swappable handler),
-\* and DaisyChainConnection.background: `h = req.H`
+\* the design without the window (one permanent validator dispatching to a swappable handler;
+\* such a validator picks the handler when it runs rather than when pubsub pushes the message, i.e.
+\* somewhere between Deliver and Validate -- not distinguishable by the replay, covered by poss[m]
+\* in RelayTrace), and DaisyChainConnection.background: `h = req.H`
 SwapAtomic(h) ==
   /\ (Transport = "daisy" /\ ~disc) \/ (Transport = "libp2p" /\ "SwapWindow" \notin Dev /\ slot # "none")
   /\ nswaps < MaxSwaps /\ Busy
